@@ -179,8 +179,8 @@ def cg(A: LinearOperator, B: torch.Tensor,
         rk = rk_1
         rkzk = rkzk_1
 
-    xk_1 = best_xk
     if not converge:
+        xk_1 = best_xk
         msg = ("Convergence is not achieved after %d iterations. "
                "Max norm of best resid: %.3e") % (max_niter, best_resid)
         warnings.warn(ConvergenceWarning(msg))
@@ -313,8 +313,8 @@ def bicgstab(A: LinearOperator, B: torch.Tensor,
 
         rho_k = rho_knew
 
-    xk = best_xk
     if not converge:
+        xk = best_xk
         msg = ("Convergence is not achieved after %d iterations. "
                "Max norm of resid: %.3e") % (max_niter, best_resid)
         warnings.warn(ConvergenceWarning(msg))
